@@ -37,6 +37,15 @@ impl<'a> RangePruner<'a> {
             }
             _ => (op, value),
         };
+        // A numeric bound outside the i64 range would be encoded in the raw u64 (or f64) lane,
+        // which does not order against the sign-flipped i64 lane of the stored keys: cannot prune.
+        if value.as_i64().is_none()
+            && value
+                .as_f64()
+                .is_some_and(|f| !(f >= i64::MIN as f64 && f < i64::MAX as f64))
+        {
+            return None;
+        }
         match self
             .artifacts
             .load_zone_surf(args.segment_id, args.uid, args.column)
